@@ -177,3 +177,25 @@ Section Proofs.
       + cbn [catches existsb subclass_of orb]. apply (miss_path false); reflexivity.
   Qed.
 End Proofs.
+
+(* Discr.field_body IS "run the lookup region, commit, call the class" *)
+Lemma field_body_is_lookup enter top codec k s t x :
+  field_body enter top codec k s t x
+  = commit_lookup enter top codec k x (model_lookup (classes x) s t (has_method codec x) (get_reg k (regs x))).
+Proof.
+  unfold field_body, refill_retry, model_lookup, commit_lookup, crash_on_refill.
+  destruct (reg_get t (get_reg k (regs x))) as [c|]; [destruct (has_method codec x c)|]; reflexivity.
+Qed.
+
+(* ... hence: the model's field-mode clause = running the emitted statements on the dispatcher's registry, with
+   "has its own method" read off the model state, then committing what they did *)
+Theorem field_body_runs prog_nailed enter top codec k s t x tr :
+  (forall v, flat (tr v) = match assoc (s_tgid s) (c_ttags (nth v (classes x) dummy_cls)) with Some l => l | None => [] end) ->
+  option_map (commit_lookup enter top codec k x)
+             (result_of (exec_block (classes x) s t (variants (classes x) s) (has_method codec x) tr
+                                    (prog prog_nailed (s_tagger s)) (env0 (get_reg k (regs x)))))
+  = Some (field_body enter top codec k s t x).
+Proof.
+  intros Htr. rewrite (prog_is_model (classes x) s t (variants (classes x) s) (has_method codec x) tr Htr eq_refl).
+  cbn [option_map]. rewrite field_body_is_lookup. reflexivity.
+Qed.
